@@ -32,7 +32,7 @@ func isCacheCall(ci ssa.CallInstruction, field string, methods ...string) bool {
 func c20(c *Ctx) {
 	p, r := c.P, c.R
 	r.Technique = "constant and slice-bound extraction of the target selection; must-pass-through (cut) checks of the candidate gates; writer/reader agreement of the radius cache key and per-payload-type coverage of ping and pong paths; outcome-independence check (no exit that depends on the ENR refresh result before the radius is recorded)"
-	r.Explanation = "Decides: (R1) gossip draws its candidates from the 32 table nodes nearest the content id and offers to candidates[:4] plus at most min(4, rest) of the shuffled rest (so at most 8); (R2) a node becomes a candidate only when its radius was found in the cache, the in-range helper applied to (that node's id, that decoded radius, the content id) is true, and - when a source is given - its id differs from the source; the loop that collects candidates runs over the whole nearest-nodes list (no early exit towards a success return); a candidate's id is compared with the source only where a source is present; the cached radius is decoded little-endian (wire value; shared with C06.R1); (R3) every request enqueued carries the full list built from all key/content pairs; (R4) radius bookkeeping: the radius cache is written only by the one update helper (with the radius taken from the payload) and by manual AddEnr (maximum); the cache key is the node id's string form at every reader and writer; for every ping-extension payload type that carries a data radius both the ping path and the pong path dispatch to a processor that feeds that radius to the update helper; on neither path does an exit depend on the outcome of the ENR refresh that precedes the dispatch (a failed refresh must not drop the reported radius); (R5) pong builders answer with the store's current radius. Permit handling is C16. Not decided: randomness quality, 'most recently reported' across concurrent interleavings of pings and pongs."
+	r.Explanation = "Decides: (R1) gossip draws its candidates from the 32 table nodes nearest the content id and offers to candidates[:4] plus at most min(4, rest) of the shuffled rest (so at most 8); (R2) a node becomes a candidate only when its radius was found in the cache, the in-range helper applied to (that node's id, that decoded radius, the content id) is true, and - when a source is given - its id differs from the source; the loop that collects candidates runs over the whole nearest-nodes list (no early exit towards a success return); a candidate's id is compared with the source only where a source is present; the cached radius is decoded little-endian (wire value; shared with C06.R1); (R3) every request enqueued carries the full list built from all key/content pairs; (R4) radius bookkeeping: the radius cache is written only by the one update helper (with the radius taken from the payload) and by manual AddEnr (maximum); the cache key is the node id's string form at every reader and writer; for every ping-extension payload type that carries a data radius both the ping path and the pong path dispatch to a processor that feeds that radius to the update helper; on neither path does an exit depend on the outcome of the ENR refresh that precedes the dispatch (a failed refresh must not drop the reported radius); (R5) pong builders answer with the store's current radius. The call that records a reported radius is not control-dependent on a read of the radius cache. Permit handling is C16. Not decided: randomness quality, 'most recently reported' across concurrent interleavings of pings and pongs."
 	r.Assumptions = []string{"fastcache is a faithful map", "findNodesCloseToContent returns nodes ordered by distance (C08.R3)"}
 	r.Floor("R1.selection-bounds", 5)
 	r.Floor("R2.candidate-gates", 3)
@@ -494,6 +494,21 @@ func c20(c *Ctx) {
 				return false
 			}, core.DeriveOpts{})
 			if ptype != "" {
+				// the report is recorded whatever the cache holds: "most recently reported" means a
+				// later report replaces an earlier one of any payload type, so whether the helper
+				// is called must not depend on what is cached for the node already
+				stale := ""
+				for _, f := range core.DomFacts(ci.Block()) {
+					for _, v := range []ssa.Value{f.V, f.X, f.Y} {
+						if v != nil && core.Derives(v, func(x ssa.Value) bool {
+							cc, ok := x.(*ssa.Call)
+							return ok && isCacheCall(cc, "radiusCache", "Has", "Get", "HasGet", "GetBig")
+						}, core.DeriveOpts{}) {
+							stale = f.String()
+						}
+					}
+				}
+				r.Check(stale == "", "R4.payload-coverage", core.FuncName(fn)+" "+ptype+" recorded-whatever-is-cached", p.Pos(ci.Pos()), "the reported radius reaches the update helper independently of the cache's content", "whether this report is recorded depends on what the radius cache already holds ("+stale+"): a later report through this payload type is ignored once any radius is cached, and gossip goes on deciding coverage from the stale value")
 				procByType[ptype] = fn
 				if direct[fn] == nil {
 					direct[fn] = map[string]bool{}
